@@ -201,7 +201,7 @@ class Folder2(Folder):
                     kw = self._kw(n)
                     if set(kw) <= {"key", "reverse"} and (kw.get("key") is None or callable(kw["key"])):
                         return recv.sort(**kw)  # in place, like the language
-                if isinstance(recv, str) and f.attr in ("zfill", "center", "title", "capitalize", "isupper", "islower", "isalnum", "isnumeric", "isdecimal", "find", "count", "partition", "rpartition", "splitlines", "rsplit") and not n.keywords:
+                if isinstance(recv, str) and f.attr in ("zfill", "center", "title", "capitalize", "isupper", "islower", "isascii", "isalnum", "isnumeric", "isdecimal", "find", "count", "partition", "rpartition", "splitlines", "rsplit") and not n.keywords:
                     return getattr(recv, f.attr)(*self._elts(n.args))
         return super()._f_Call(n)
 
